@@ -295,6 +295,7 @@ Section Run.
     l_empty consume = false ->
     collect s consume = (col, false) -> all_some col = Some pkts ->
     l_head consume = l_head (active s) /\ l_tail consume < 65536 /\
+    N.of_nat (List.length pkts) < 65536 /\
     exists hp rest, pkts = hp :: rest /\
       Forall2 (fun key p => In (key, p) (buf s)) (keys_from (l_head (active s)) (List.length pkts)) pkts /\
       bget (l_head (active s)) (buf s) = Some hp /\
@@ -340,7 +341,7 @@ Section Run.
       split; [exact Hjn|].
       assert (E : nth_error (map (fun k0 => bget k0 (buf s)) (keys_from h n)) j = nth_error (map Some pkts) j) by (rewrite Has; reflexivity).
       rewrite !nth_error_map, Hj, keys_from_nth in E by assumption. cbn in E. injection E as E. exact E. }
-    split; [exact Hch|]. split; [rewrite <- Hnt; apply w16_lt|].
+    split; [exact Hch|]. split; [rewrite <- Hnt; apply w16_lt|]. split; [rewrite Hpl; exact Hn65|].
     destruct pkts as [|hp rest]; [cbn in Hpl; lia|].
     exists hp, rest. split; [reflexivity|]. split; [|split].
     - rewrite Hpl. clear - Has. revert Has. generalize (keys_from h n). intros ks.
